@@ -109,8 +109,12 @@ class NonDominatedPriority(MOPriority):
         self.max_num_samples = max_num_samples
 
     def priority_unsafe(self, objectives: np.array) -> np.array:
-        return np.array(
-            nondominated_sort(
-                X=objectives, dim=self.dim, max_items=self.max_num_samples
-            )
+        order = nondominated_sort(
+            X=objectives, dim=self.dim, max_items=self.max_num_samples
         )
+        # ``order`` lists the indices of the items from best to worst. The
+        # priority of an item is its position in this list (items which are
+        # not listed due to ``max_num_samples`` come last)
+        priorities = np.full(len(objectives), len(order))
+        priorities[order] = np.arange(len(order))
+        return priorities
